@@ -16,13 +16,21 @@ import (
 // HashBinCase: a task whose literal dependencies are of the given kinds, run through the CLI
 // (C18 binary leg: "spok stops with a message instead of dying").
 type HashBinCase struct {
-	Kinds []string `json:"kinds"` // regular dir missing dangling symlink unreadable
-	Flags []string `json:"flags"`
+	// ProjDir names the directory holding the spokfile ("" = proj)
+	ProjDir string   `json:"proj_dir,omitempty"`
+	Kinds   []string `json:"kinds"` // regular dir missing dangling symlink unreadable
+	Flags   []string `json:"flags"`
 }
 
 var hashBinKinds = []string{"regular", "regular", "dir", "missing", "dangling", "symlink", "unreadable", "empty"}
 
 func genHashBin(t *rapid.T) HashBinCase {
+	c := genHashBinBody(t)
+	c.ProjDir = genProjDir(t)
+	return c
+}
+
+func genHashBinBody(t *rapid.T) HashBinCase {
 	n := rapid.IntRange(1, 6).Draw(t, "n")
 	c := HashBinCase{}
 	for i := 0; i < n; i++ {
@@ -33,7 +41,7 @@ func genHashBin(t *rapid.T) HashBinCase {
 }
 
 func execHashBin(s *ev.Shard, b *sandbox.Box, c HashBinCase) *rp.Fail {
-	if err := b.Reset(); err != nil {
+	if err := b.ResetAs(c.ProjDir); err != nil {
 		return &rp.Fail{Sig: "harness", Msg: err.Error()}
 	}
 	var deps []string
